@@ -15,11 +15,11 @@ SPEC = dict(
     assumptions=['no handle object is ever used by two threads (the property\'s precondition); only payloads are shared',
                  'volatile reference counters are modelled as acquire/release for TSan (DESIGN.md 2.3); a report must recur to count'],
     jobs=[
-        job('ptr-seq', 'h_refcount', 'ptr-seq', sources=SRC, cases={Q: 16000, T: 400000}, procs=16, probes=['RefCount.Ptr.swap/different-payloads']),
-        job('conc-tsan', 'h_refcount', 'conc', variant='tsan', sources=SRC, cases={Q: 320, T: 6400}, procs=16, timeout={Q: 900, T: 3000}, deadlock=True),
-        job('conc-asan', 'h_refcount', 'conc', variant='asan', sources=SRC, cases={Q: 640, T: 12800}, procs=16, timeout={Q: 900, T: 3000}, deadlock=True),
-        job('conc-plain', 'h_refcount', 'conc', variant='plain', sources=SRC + ['interpose/ledger.cpp'], cflags=['-DVERIF_LEDGER'], cases={Q: 1600, T: 32000}, procs=16, timeout={Q: 900, T: 3000}, deadlock=True),
+        job('ptr-seq', 'h_refcount', 'ptr-seq', sources=SRC, cases={Q: 48000, T: 800000}, procs=16, probes=['RefCount.Ptr.swap/different-payloads']),
+        job('conc-tsan', 'h_refcount', 'conc', variant='tsan', sources=SRC, cases={Q: 960, T: 16000}, procs=16, timeout={Q: 900, T: 3000}, deadlock=True),
+        job('conc-asan', 'h_refcount', 'conc', variant='asan', sources=SRC, cases={Q: 1920, T: 32000}, procs=16, timeout={Q: 900, T: 3000}, deadlock=True),
+        job('conc-plain', 'h_refcount', 'conc', variant='plain', sources=SRC + ['interpose/ledger.cpp'], cflags=['-DVERIF_LEDGER'], cases={Q: 6400, T: 96000}, procs=16, timeout={Q: 900, T: 3000}, deadlock=True),
     ],
-    floors={Q: dict(ops=2000000, in_place_modifications=200000, mailbox_exchanges=20000, op_swap=100000, ledger_freed_blocks_poison_verified=100000),
+    floors={Q: dict(ops=6000000, in_place_modifications=600000, mailbox_exchanges=60000, op_swap=300000, ledger_freed_blocks_poison_verified=300000),
             T: dict(ops=40000000, in_place_modifications=4000000, mailbox_exchanges=400000, op_swap=2000000, ledger_freed_blocks_poison_verified=2000000)},
 )
